@@ -43,7 +43,12 @@ func init() {
 
 // ---------------------------------------------------------------- (A) scanning phase
 
-type c20X struct{ n string }
+type c20X struct {
+	n string
+	// identical argument-carrying tag texts in every component (only scanned here, never populated)
+	Dep scen.Iface `wire:",qualifier=c20q"`
+	V   string     `value:"${c20.v:1},validate=required"`
+}
 
 func (x *c20X) Naming() string { return x.n }
 
@@ -79,10 +84,10 @@ func c20Scan(c *core.Ctx) {
 				case n == 1 && builtin:
 					bound = 2
 				case n == 2 && builtin:
-					if !c.Thorough() {
-						continue
-					}
 					bound = 0
+					if c.Thorough() {
+						bound = 0 // +1 below
+					}
 				case n == 2:
 					bound = 2
 				case n == 3 && builtin:
@@ -117,7 +122,7 @@ func c20Scan(c *core.Ctx) {
 			syslog.ResetForVerif(syslog.LvTrace) // every execution starts with cold logger state
 			reg := support.NewRegistry()
 			for i := 0; i < cs.N; i++ {
-				reg.RegisterSingleton(&c20X{fmt.Sprintf("c%d", i)})
+				reg.RegisterSingleton(&c20X{n: fmt.Sprintf("c%d", i)})
 			}
 			fs := &c20FailScan{}
 			for i := 0; i < cs.N; i++ {
@@ -253,7 +258,18 @@ type c20Node struct {
 	Dep  scen.Iface   `wire:",required=false"`
 	All  []scen.Iface `wire:",required=false"`
 	Host string       `value:"${host:localhost}"`
+	// identical argument-carrying tag texts in several components, without an explicit
+	// `required` (scanners complete the argument list while scanning in parallel)
+	Q    scen.Iface `wire:",qualifier=c20q"`
+	Port int        `value:"${port:8080},validate=min=1"`
 }
+
+// c20Q is the qualified provider of c20Node.Q.
+type c20Q struct{}
+
+func (*c20Q) ID() string        { return "wq" }
+func (*c20Q) Naming() string    { return "wq" }
+func (*c20Q) Qualifier() string { return "c20q" }
 
 func (n *c20Node) ID() string     { return n.Nm }
 func (n *c20Node) Naming() string { return n.Nm }
@@ -296,14 +312,14 @@ func c20WholeOne(c *core.Ctx, cs c20WholeCase) {
 		var err error
 		body := func() {
 			syslog.ResetForVerif(syslog.LvTrace)
-			comps := []any{&c20Node{Nm: "wa"}, &c20Node{Nm: "wb"}, &c20Node{Nm: "wc"}}
+			comps := []any{&c20Node{Nm: "wa"}, &c20Node{Nm: "wb"}, &c20Node{Nm: "wc"}, &c20Q{}}
 			if cs.Prog >= 1 {
 				fs := &c20FailScan{}
 				comps = append(comps, fs)
 			}
 			if cs.Prog == 2 {
-				comps = append(comps, &c20X{"c0"}, &c20X{"c1"})
-				comps[3].(*c20FailScan).fail[0], comps[3].(*c20FailScan).fail[1] = true, true
+				comps = append(comps, &c20X{n: "c0"}, &c20X{n: "c1"})
+				comps[4].(*c20FailScan).fail[0], comps[4].(*c20FailScan).fail[1] = true, true
 			}
 			a := app.NewApp()
 			err = a.Run(app.SetConfigLoader(), app.SetComponents(comps...))
@@ -316,7 +332,13 @@ func c20WholeOne(c *core.Ctx, cs c20WholeCase) {
 			root := scen.ReplaySched(nil, body)
 			idx := 0
 			rec := append([]vsync.SchedPoint{}, vsync.Rec...)
-			_ = root
+			if root.Raced || root.Deadlock || len(root.ChildPanics) > 0 {
+				// the default schedule itself (for a worker whose first case this is: the only execution
+				// of the process that starts from cold process-global state)
+				c.Outcome("data-race")
+				c.Report("C20/whole-dev/"+core.Hash(cs.Prog), "data-race", fmt.Sprintf("whole start+close of program %d under the default schedule: race=%v deadlock=%v panics=%v\n%s", cs.Prog, root.Raced, root.Deadlock, root.ChildPanics, scen.RaceLogTail(1800)), cs)
+				return
+			}
 			for i, pt := range rec {
 				for alt := 1; alt < pt.N; alt++ {
 					idx++
